@@ -54,7 +54,13 @@ ApatVerdict(ev) ==
      <<"all",    IF ~ind THEN FilterVerdict(ev.all, A, Q, m)
                  ELSE IF realign THEN AllIndelVerdict(P, S, ev.e, ev.all, A, Q)
                  ELSE "ok">>,
-     <<"best",   IF ~ind \/ realign THEN BestVerdict(P, S, ev.e, ind, ev.best, A, Q) ELSE "ok">>
+     <<"best",   IF ~ind \/ realign THEN BestVerdict(P, S, ev.e, ind, ev.best, A, Q) ELSE "ok">>,
+     (* the sequence predicate (whole sequence as window): a match iff there is a hit; on both strands: *)
+     (* iff the pattern or its complement has one                                                       *)
+     <<"pred",   IF ev.pred = -1 THEN "ok" ELSE IF ev.pred = 2 THEN "panic" ELSE IsMatchVerdict(ev.pred, A, Q)>>,
+     <<"predboth", IF ev.predboth = -1 THEN "ok" ELSE IF ev.predboth = 2 THEN "panic"
+                   ELSE IF ev.predboth = 1 /\ A = {} /\ cA = {} THEN "spurious"
+                   ELSE IF ev.predboth = 0 /\ (Q # {} \/ cQ # {}) THEN "missing" ELSE "ok">>
   >>)
 
 LocVerdict(ev) ==
